@@ -378,6 +378,19 @@ build a2: slow
 build all: phony a1 a2 b
 default all
 """, 2, []),
+    # a command that cannot be spawned (its command line is longer than the kernel's limit for one argument: E2BIG) while
+    # others run: the build must fail like any start failure -- tokens back, the running commands waited for (w5_C06_1)
+    "jobserver/spawn_fails": ("""big = %s
+rule slow
+  command = echo S $out $$(date +%%s.%%N) >> log; sleep 0.8; echo E $out $$(date +%%s.%%N) >> log; touch $out
+rule huge
+  command = true $big; touch $out
+build a1: slow
+build a2: slow
+build zz: huge
+build all: phony a1 a2 zz
+default all
+""" % ("x" * 200000), 2, []),
 }
 
 
@@ -399,7 +412,9 @@ def _js_extra_case(args):
         fd = os.open(fifo, os.O_RDWR | os.O_NONBLOCK)
         os.write(fd, b"+" * tokens)
         env = dict(os.environ, MAKEFLAGS=" -j%d --jobserver-auth=fifo:%s" % (tokens + 1, fifo))
-        p = subprocess.Popen([ninja] + nargs, cwd=wd, env=env, stdout=subprocess.PIPE, stderr=subprocess.STDOUT)
+        # (to a file: nobody reads a pipe while ninja runs, and one error message here is 200 kB long)
+        p = subprocess.Popen([ninja] + nargs, cwd=wd, env=env, stdout=open(os.path.join(root, "ninja.out"), "wb"),
+                             stderr=subprocess.STDOUT)
 
         def count():
             try:
@@ -437,6 +452,10 @@ def _js_extra_case(args):
             out["problems"].append("ninja did not finish within 30 s")
         p.wait()
         out["exit"] = p.returncode
+        still = running_now()
+        if still and p.returncode >= 0:
+            out["problems"].append("ninja exited (status %d) while %d command(s) it had started were still running" % (p.returncode, still))
+            time.sleep(1.2)   # let them end before the tokens are counted and the directory goes away
         if worst:
             out["problems"].append(worst)
         # over the whole log: maximal overlap
